@@ -78,24 +78,48 @@ inductive Event where
 
 /-! ### `find_iter_at_in_context` -/
 
-/-- The haystack `find_iter_at_in_context` (and `replace_all`) hand to the matcher. -/
+/-- The haystack the multi-line branch of `find_iter_at_in_context` (and of `replace_all`) hands to the matcher:
+the buffer cut `MAX_LOOK_AHEAD` bytes behind the range. (The `else` branch is the cut the line-oriented branch
+made before 0cdcce3; nothing uses it any more.) -/
 def cutHaystack (sc : SCfg) (bytes : Bytes) (re : Nat) : Bytes :=
   if sc.multiLine then
     if bytes.length - re ≥ maxLookAhead then bytes.take (re + maxLookAhead) else bytes
   else bytes.take (trimLineTerminator sc.lt bytes 0 re)
 
+/-- The line-oriented branch searches the line on its own (since 0cdcce3): `&bytes[range.start..content_end]`,
+`content_end` by `trim_line_terminator` on `(range.start, range.end)`.
+(Rust slices `bytes[range.start..content_end]`, which needs `range.start ≤ content_end`; `trim_line_terminator` can
+step below `range.start` only under `--crlf` for the line `\n` preceded by a `\r` — impossible for a line the
+searcher reports, since what precedes a line is nothing or the previous line's `\n`. The model's `slice` is `[]`
+there.) -/
+def lineHaystack (lt : LineTerm) (bytes : Bytes) (rs re : Nat) : Bytes :=
+  slice bytes rs (trimLineTerminator lt bytes rs re)
+
+/-- the haystack shown to the matcher for the range, and the position the iteration starts from -/
+def shownHay (sc : SCfg) (bytes : Bytes) (rs re : Nat) : Bytes :=
+  if sc.multiLine then cutHaystack sc bytes re else lineHaystack sc.lt bytes rs re
+
+def shownFrom (sc : SCfg) (rs : Nat) : Nat := if sc.multiLine then rs else 0
+
 /-- `find_iter_at_in_context(searcher, matcher, bytes, range, |m| { push(m); true })`: all callers pass a callback
-that records the match and returns `true`; the closure inside drops (and stops at) a match with
-`m.start() >= range.end`, except the one that starts exactly at `range.end` when the range ends the haystack
-without a terminator (`isAtUnterminatedEnd`, `beyondRange`: Model/Replace.lean, same Rust functions). A kept
-match is handed on as `m.with_end(min(m.end(), range.end))`: with the bounded look-ahead of multi-line mode it may
-reach beyond the lines. -/
+that records the match and returns `true`.
+Line-oriented branch: every match of the line's own content, found from position 0, shifted back by `range.start`
+(`m.offset(range.start)`).
+Multi-line branch: the closure drops (and stops at) a match with `m.start() >= range.end`, except the one that
+starts exactly at `range.end` when the range ends the haystack without a terminator (`isAtUnterminatedEnd`,
+`beyondRange`: Model/Replace.lean, same Rust functions); a kept match is handed on as
+`m.with_end(min(m.end(), range.end))`: with the bounded look-ahead it may reach beyond the lines. -/
 def findIterInContext (sc : SCfg) (find : Oracle) (bytes : Bytes) (rs re : Nat) : List Span :=
-  let hay := cutHaystack sc bytes re
-  let atEnd := isAtUnterminatedEnd sc.lt hay rs re
-  findIterAt (find hay) hay.length rs
-    (fun (acc : List Span) m =>
-      if beyondRange re atEnd m.s then (acc, false) else (acc ++ [⟨m.s, min m.e re⟩], true)) []
+  if sc.multiLine then
+    let hay := cutHaystack sc bytes re
+    let atEnd := isAtUnterminatedEnd sc.lt hay rs re
+    findIterAt (find hay) hay.length rs
+      (fun (acc : List Span) m =>
+        if beyondRange re atEnd m.s then (acc, false) else (acc ++ [⟨m.s, min m.e re⟩], true)) []
+  else
+    let line := lineHaystack sc.lt bytes rs re
+    findIterAt (find line) line.length 0
+      (fun (acc : List Span) m => (acc ++ [⟨m.s + rs, m.e + rs⟩], true)) []
 
 def shiftSpans (rs : Nat) (ms : List Span) : List Span := ms.map fun m => ⟨m.s - rs, m.e - rs⟩
 
@@ -272,13 +296,19 @@ def writeColoredMatches (lt : LineTerm) (bytes : Bytes) (ls le : Nat) (ms : List
   if ms.isEmpty then (slice bytes ls le', midx)
   else coloredGo bytes ms ((le' - ls) + ms.length + 1) ls le' midx []
 
+/-- `write_own_line_term(bytes, line)` (since b0493c8): the terminator bytes the line ends with, exactly as they
+are; the configured terminator when the line has none. -/
+def writeOwnLineTerm (lt : LineTerm) (bytes : Bytes) (ls le : Nat) : Bytes :=
+  let t := trimLineTerminator lt bytes ls le
+  if t < le then slice bytes t le else lt.bytes
+
 /-- loop of `sink_slow_multi_line` (neither only-matching nor per-match) -/
 def sinkSlowMultiLineGo (sc : SCfg) (c : StdCfg) (s : Sunk) : Nat → Nat → List (Nat × Nat) → Bytes
   | _, _, [] => []
   | count, midx, (ls, le) :: rest =>
     let pre := writePrelude c false (s.absOff + ls) (s.lineNo.map (· + count)) (some ((s.ms.headD ⟨0, 0⟩).s + 1))
     let (w, midx') := writeColoredMatches sc.lt s.bytes ls le s.ms midx
-    pre ++ w ++ sc.lt.bytes ++ sinkSlowMultiLineGo sc c s (count + 1) midx' rest
+    pre ++ w ++ writeOwnLineTerm sc.lt s.bytes ls le ++ sinkSlowMultiLineGo sc c s (count + 1) midx' rest
 
 /-- inner `while !line.is_empty()` loop of `sink_slow_multi_line_only_matching` for one line; returns the bytes
 written and the final `midx`. -/
@@ -330,7 +360,8 @@ def perMatchLinesGo (sc : SCfg) (c : StdCfg) (s : Sunk) (m : Span) : Nat → Lis
       let pre := writePrelude c false (s.absOff + ls) (s.lineNo.map (· + count)) (some (m.s - ls + 1))
       let le' := trimLineTerminator sc.lt s.bytes ls le
       let w := perMatchPiecesGo s.bytes m ((le' - ls) + 1) ls le' []
-      pre ++ w ++ sc.lt.bytes ++ (if c.perMatchOneLine then [] else perMatchLinesGo sc c s m (count + 1) rest)
+      pre ++ w ++ writeOwnLineTerm sc.lt s.bytes ls le ++
+        (if c.perMatchOneLine then [] else perMatchLinesGo sc c s m (count + 1) rest)
 
 /-- `sink_slow_multi_line` -/
 def sinkSlowMultiLine (sc : SCfg) (c : StdCfg) (s : Sunk) : Bytes :=
